@@ -7,6 +7,7 @@ require (
 	github.com/awalterschulze/gographviz v0.0.0-20190522210029-fa59802746ab
 	github.com/boyter/scc v0.0.0-20200907020550-91af61dfda0d
 	github.com/modernizing/coca v0.0.0
+	github.com/spf13/cobra v0.0.5
 	golang.org/x/tools v0.29.0
 )
 
@@ -21,7 +22,6 @@ require (
 	github.com/modern-go/reflect2 v0.0.0-20180701023420-4b7aa43c6742 // indirect
 	github.com/olekukonko/tablewriter v0.0.4 // indirect
 	github.com/sabhiram/go-gitignore v0.0.0-20180611051255-d3107576ba94 // indirect
-	github.com/spf13/cobra v0.0.5 // indirect
 	github.com/spf13/pflag v1.0.3 // indirect
 	github.com/yourbasic/radix v0.0.0-20180308122924-cbe1cc82e907 // indirect
 	golang.org/x/exp v0.0.0-20220722155223-a9213eeb770e // indirect
